@@ -42,7 +42,11 @@ pub struct DynCase {
 
 const MAX_REQ: usize = 161;
 
-pub fn case_strategy(max_ops: usize) -> impl Strategy<Value = DynCase> {
+/// `restrict`: the findings that let a resizable memory burn all 255 reallocations are open
+/// (alignment >= 16, hinted size not a multiple of the alignment). Such a case costs seconds, so
+/// with BestFit / PowerOfTwo these shapes are then generated in 3 % of the cases only (the Static
+/// strategy, where the defect is cheap to observe, keeps the full range).
+pub fn case_strategy(max_ops: usize, restrict: bool) -> impl Strategy<Value = DynCase> {
     let op = prop_oneof![
         6 => (any::<u16>(), any::<u8>()).prop_map(|(size, align)| DOp::Alloc { size, align }),
         3 => any::<u16>().prop_map(DOp::Dealloc),
@@ -52,19 +56,20 @@ pub fn case_strategy(max_ops: usize) -> impl Strategy<Value = DynCase> {
     ];
     (
         any::<bool>(),
-        prop_oneof![1 => Just(0u8), 3 => Just(1u8), 3 => Just(2u8)],
+        prop_oneof![2 => Just(0u8), 3 => Just(1u8), 3 => Just(2u8)],
+        any::<u8>(),
         // two of three hints are multiples of the alignment (what the ports pass), the rest arbitrary
         (0u8..3, 1u16..=8, prop_oneof![3 => 1u16..=16, 1 => 1u16..=64]),
-        // alignments >= 16 run into the recorded lost-bucket finding (which costs 255 segment
-        // creations before the case ends): a quarter of the cases
-        prop_oneof![3 => 0u8..=3, 1 => 4u8..=6],
+        any::<u16>(),
         1u8..=4,
         any::<bool>(),
         proptest::collection::vec(op, 0..max_ops),
     )
-        .prop_map(|(posix, strategy, (mode, k, raw), hint_align_log2, hint_chunks, view_read_only, ops)| {
+        .prop_map(move |(posix, strategy, awkward_sel, (mode, k, raw), align_sel, hint_chunks, view_read_only, ops)| {
+            let awkward_allowed = !restrict || strategy == 0 || awkward_sel < 8;
+            let hint_align_log2 = idx(align_sel, if awkward_allowed { 7 } else { 4 }) as u8;
             let ha = 1u16 << hint_align_log2;
-            let hint_size = if mode < 2 { ha * k.min((128 / ha).max(1)) } else { raw };
+            let hint_size = if mode == 2 && awkward_allowed { raw } else { ha * k.min((128 / ha).max(1)) };
             DynCase { posix, strategy, hint_size, hint_align_log2, hint_chunks, view_read_only, ops }
         })
 }
@@ -101,6 +106,8 @@ struct Run<'a, M: ResizableSharedMemoryForPoolAllocator<S>, S: SharedMemory<Pool
     ever_registered: bool,
     next_seed: u32,
     held_across_growth: bool,
+    /// requests above this alignment are left out (open lost-bucket finding, see `case_strategy`)
+    cap_req_align: usize,
     /// largest alignment the segments had to support so far
     max_align: usize,
     /// the reallocation budget was burnt by a recorded finding: the case ends
@@ -221,6 +228,11 @@ impl<M: ResizableSharedMemoryForPoolAllocator<S>, S: SharedMemory<PoolAllocator>
     fn alloc(&mut self, step: usize, size: usize, align: usize, obs: &mut Obs) -> Result<(), Failure> {
         let what = format!("step {step}: allocate({size}, {align})");
         let (hs, ha) = (self.c.hint_size as usize, 1usize << self.c.hint_align_log2);
+        if align > self.cap_req_align {
+            self.known.excluded(SIG_DYN_LOST_BUCKET);
+            obs.class("excluded_request_alignment_16_plus");
+            return Ok(());
+        }
         match self.sut.allocate(layout(size, align)) {
             Ok(p) => {
                 self.validate(&what, &p, size, align, None)?;
@@ -450,6 +462,7 @@ where
         ever_registered: false,
         next_seed: 0,
         held_across_growth: false,
+        cap_req_align: if known.is_open(SIG_DYN_LOST_BUCKET) && c.strategy != 0 && ha <= 8 && hs % ha == 0 { 8 } else { usize::MAX },
         max_align: ha,
         dead: false,
         _s: core::marker::PhantomData,
